@@ -29,7 +29,8 @@ THEOREMS = ['split_render', 'split_render_lazy', 'split_first', 'split_concat', 
             'argcount_eq_types', 'infer_single_complete_type', 'infer_splits_into_one', 'infer_fails_iff',
             'infer_total_on_builtin', 'infer_valid_type', 'wrapper_selects_type',
             'wrapper_table_matches_source', 'int_rule_matches_source', 'plain_int_rule',
-            'prefix_model_f28_infers_i', 'prefix_model_dict_value_from_last']
+            'prefix_model_f28_infers_i', 'prefix_model_dict_value_from_last',
+            'variant_roundtrip_partial', 'prefix_inferred_types_do_not_fit']
 TRUSTED_BASE = [
     'Python semantics mirrored by hand in Sig/Split.lean and Wire/Infer.lean (generators and PEP 479, slices, '
     'isinstance/type on the builtin classes, dict iteration order, loop variables after a for loop) - validated by '
@@ -38,7 +39,7 @@ TRUSTED_BASE = [
     'harness oracle: parse_one (DBus grammar), natural_sig / expect (domain of the round-trip claim)',
 ]
 ASSUMPTIONS = [
-    'enumerated signatures use the leaf alphabet {i, s, v} (all 14 leaf codes up to length 3 quick / 4 thorough): '
+    'enumerated signatures use the leaf alphabet {i, s, v} (all 14 leaf codes up to length 3 quick / 5 thorough): '
     'genCompleteTypes only distinguishes ( ) { } a from every other character; the theorem split_render covers all',
     'user classes are unrelated to each other and to the builtin classes (no subclass of list/dict/int beyond the '
     'wrapper classes of marshal.py)',
@@ -881,14 +882,14 @@ def run(ctx):
     # ---- splitter
     sigs = enum_sigs(8 if thorough else 6, 'is', 'v')
     seen = set(sigs)
-    sigs += [s for s in enum_sigs(4 if thorough else 3, BASIC, 'v') if s not in seen]
+    sigs += [s for s in enum_sigs(5 if thorough else 3, BASIC, 'v') if s not in seen]
     if ctx.widen:
         seen = set(sigs)
         sigs += [s for s in enum_sigs(7, 'i', 'v') if s not in seen]
     run_split(ctx, marshal, 'split-enumerated', sigs, True)
     ctx.exhaustive = True
     ctx.note('split-enumerated: %d signatures = every valid signature of length <= %d over leaves {i,s,v} and of '
-             'length <= %d over all 14 leaf codes' % (len(sigs), 8 if thorough else 6, 4 if thorough else 3))
+             'length <= %d over all 14 leaf codes' % (len(sigs), 8 if thorough else 6, 5 if thorough else 3))
 
     n = ctx.scale(quick=4000, thorough=40000)
     rsigs = [rand_sig(rng) for _ in range(n)]
